@@ -546,6 +546,46 @@ def importJsonObj (table : Str) (obj : List (Str × Option Str)) : Str :=
 def nameCharsOk (name : Str) : Bool :=
   name.all (fun c => c ≠ ';' && c ≠ '\'' && c ≠ '"' && c ≠ '(' && c ≠ ')')
 
+/-! ### `validate_csv_columns`: what is checked before the generated statements are run -/
+
+/-- `s.split(sep)`; `cur` is the current piece, reversed -/
+def splitOnAux (sep : Char) (cur : Str) : Str → List Str
+  | [] => [cur.reverse]
+  | c :: cs => if c = sep then cur.reverse :: splitOnAux sep [] cs else splitOnAux sep (c :: cur) cs
+
+def splitOn (sep : Char) (s : Str) : List Str := splitOnAux sep [] s
+
+/-- `BufRead::lines().next()` on a non-empty file: the text up to the first LF, without a CR that
+precedes that LF; `cur` is reversed -/
+def firstLineAux (cur : Str) : Str → Str
+  | [] => cur.reverse
+  | c :: cs => if c = '\n' then (stripCr cur).reverse else firstLineAux (c :: cur) cs
+
+def firstLine (text : Str) : Option Str :=
+  if text.isEmpty then none else some (firstLineAux [] text)
+
+def lowerAscii (c : Char) : Char :=
+  if 'A'.toNat ≤ c.toNat ∧ c.toNat ≤ 'Z'.toNat then Char.ofNat (c.toNat + 32) else c
+
+/-- `a.eq_ignore_ascii_case(b)` -/
+def eqIgnoreAsciiCase (a b : Str) : Bool := a.map lowerAscii == b.map lowerAscii
+
+/-- one header name is acceptable: no forbidden character and a column of the table -/
+def nameOk (cols : List Str) (name : Str) : Bool :=
+  nameCharsOk name && cols.any (fun c => eqIgnoreAsciiCase c name)
+
+/-- `validate_csv_columns` accepts the file: line 1, split at commas, every trimmed piece is ok -/
+def validateHeader (cols : List Str) (text : Str) : Bool :=
+  match firstLine text with
+  | none => false
+  | some l => (splitOn ',' l).all (fun f => nameOk cols (trim f))
+
+/-- the header `import_csv` pastes into its statements: the first *record* -/
+def firstRecord (text : Str) : Option (List Str) :=
+  match parseCsv text with
+  | .ok (h :: _) => some h
+  | _ => none
+
 /-- `export`: `execute("SELECT * …")` gives header `Column` per column and cells in `{:?}` form;
 `dbg` is the Debug text of a value -/
 def exportTable (dbg : α → Str) (rows : List (List α)) : List (List Str) :=
